@@ -50,6 +50,8 @@ def cases(tier, seed):
         for mean, depth, dims in itertools.product([0.0, 1.2], [1, 2, 3], [1, 2]):
             yield {"kind": "kiss", "mean": mean, "depth": depth, "dims": dims, "late_eval": depth > 1, "seed": rnd.randrange(10**6)}
             yield {"kind": "kiss", "mean": mean, "depth": depth, "dims": dims, "late_eval": depth > 2, "fast_pred_var": True, "seed": rnd.randrange(10**6)}
+        for lik, depth, fpv in itertools.product(["gauss", "fixed"], [1, 2], [False, True]):
+            yield {"kind": "single", "mbatch": [], "pattern": "m", "lik": lik, "depth": depth, "fast_pred_var": fpv, "detach": True, "n": 4, "m": 2, "xf_float32": True, "seed": rnd.randrange(10**6)}
         for mb, lik, depth, fpv in itertools.product([[], [2]], ["gauss", "fixed", "fixed+learn"], [2, 3], [False, True]):
             yield {"kind": "single", "mbatch": mb, "pattern": "m", "lik": lik, "depth": depth, "fast_pred_var": fpv, "detach": True, "n": 4, "m": 2, "late_eval": True, "seed": rnd.randrange(10**6)}
         # as many fantasy points as stored (fixed) noise values - in round one, and in round two (m2 == n + m1)
@@ -314,6 +316,8 @@ def _single(case, ctx, g):
             if case.get("m_equals_stored"):
                 pat_case["m"] = int(cur.train_targets.shape[-1])  # as many fantasy points as the likelihood stores noise values
             Xf, yf = _fantasy_data(pat_case, g, cur_batch)
+            if case.get("xf_float32"):
+                Xf = Xf.float()  # float32 fantasy inputs for a float64 model (exactly representable; promoted by the concatenation)
             kw = {}
             if case["lik"] != "gauss":
                 # the fantasy noise has the batch shape of the fantasy INPUTS (shared inputs => shared noise)
@@ -384,15 +388,20 @@ def _as_function(case, ctx, g):
     with S.fast_pred_var(fpv), S.detach_test_caches(False):
         model(xs)
         Xf = util.randn(g, 2, 2).requires_grad_(True)
-        yf = util.randn(g, 2)
+        yf = util.randn(g, 2).requires_grad_(True)  # (fantasy targets may be reparameterised samples: the mean depends on them)
         nz = util.rand(g, 2) * 0.2 + 0.03 if fixed is not None else None
         kw = {"noise": nz} if nz is not None else {}
         fm = model.get_fantasy_model(Xf, yf, **kw)
         out = fm(xs)
-        gm, gv = torch.autograd.grad(out.mean.sum(), Xf, retain_graph=True)[0], torch.autograd.grad(out.variance.sum(), Xf, allow_unused=True)[0]
+        wy_ = util.randn(g, *out.mean.shape)
+        gm, gv = torch.autograd.grad(out.mean.sum(), Xf, retain_graph=True)[0], torch.autograd.grad(out.variance.sum(), Xf, allow_unused=True, retain_graph=True)[0]
+        gy = torch.autograd.grad((out.mean * wy_).sum(), yf, allow_unused=True, retain_graph=True)[0]
         Xr = Xf.detach().clone().requires_grad_(True)
-        ref = scratch(Xr, yf, nz)
-        rm, rv = torch.autograd.grad(ref.mean.sum(), Xr, retain_graph=True)[0], torch.autograd.grad(ref.variance.sum(), Xr)[0]
+        yr = yf.detach().clone().requires_grad_(True)
+        ref = scratch(Xr, yr, nz)
+        rm, rv = torch.autograd.grad(ref.mean.sum(), Xr, retain_graph=True)[0], torch.autograd.grad(ref.variance.sum(), Xr, retain_graph=True)[0]
+        ry = torch.autograd.grad((ref.mean * wy_).sum(), yr)[0]
+        ctx.close("fantasy_gradient_wrt_inputs", torch.zeros_like(ry) if gy is None else gy, ry, (1e-5, 1e-5) if fpv else (1e-7, 1e-7), cls=f"grad:mean_wrt_fantasy_targets:{case['lik']}:{'love' if fpv else 'exact'}")
         tol = (1e-5, 1e-5) if fpv else (1e-7, 1e-7)
         ctx.close("fantasy_gradient_wrt_inputs", gm, rm, tol, cls=f"grad:mean:{case['lik']}:{'love' if fpv else 'exact'}")
         ctx.close("fantasy_gradient_wrt_inputs", torch.zeros_like(rv) if gv is None else gv, rv, tol, cls=f"grad:var:{case['lik']}:{'love' if fpv else 'exact'}")
